@@ -425,7 +425,7 @@ func copyOK(v ssa.Value, il *an.IndexLoop, newMsg *ssa.Function, depth int) (boo
 	if depth > 4 {
 		return false, "too deep"
 	}
-	if an.CallResultOf(v, newMsg) != nil {
+	if an.CallResultOf(v, newMsg) != nil || msgCopyOf(v, newMsg) != nil {
 		return true, ""
 	}
 	phi, ok := v.(*ssa.Phi)
